@@ -108,7 +108,20 @@ class Executor(ExprMixin, StmtMixin, Engine):
 
     def exec_stmt(self, node, st):
         self.cur_line = getattr(node, 'lineno', self.cur_line)
-        yield from super().exec_stmt(node, st)
+        c = self.m.contracts.get(self.cur_fn_stack[0]) if len(self.cur_fn_stack) == 1 else None
+        upd = None
+        if c is not None and c.ghost_after and not isinstance(node, (ast.If, ast.While, ast.For, ast.Try)):
+            upd = c.ghost_after.get(ast.unparse(node))
+        if upd is None:
+            yield from super().exec_stmt(node, st)
+            return
+        self.ghost_hits = getattr(self, 'ghost_hits', set()) | {ast.unparse(node)}
+        for s1, out in super().exec_stmt(node, st):
+            if out.kind == 'normal' and not s1.dead:
+                for gname, expr in upd:
+                    v = self.spec_val(expr, s1, {}, self.fn_old)
+                    s1.env[gname] = self.coerce(v, c.ghost_init[gname][0])
+            yield s1, out
 
     # ------------------------------------------------------------------ calls -------------
     def ev_call(self, node, st):
@@ -612,6 +625,16 @@ class Executor(ExprMixin, StmtMixin, Engine):
         cname = c.key.split(':')[1]
         if getattr(self, 'in_anyall', 0):
             self.probe_calls.append(c)
+        top = self.m.contracts.get(self.cur_fn_stack[0]) if self.cur_fn_stack else None
+        if top is not None and c.key in top.call_asserts and len(self.cur_fn_stack) == 1:
+            for j, e in enumerate(top.call_asserts[c.key]):
+                e, props = clause(e)
+                self.clause_props = props
+                scope = dict(args)
+                self.prove(st, self.spec(e, st, scope, self.fn_old), 'call-assert', line, '%s.%d' % (cname, j), text=e,
+                           stable_name='%s:call-assert:%s.%d' % (self.cur_fn_stack[0].split(':')[1], cname, j))
+                self.clause_props = None
+            self.call_assert_hits = getattr(self, 'call_assert_hits', set()) | {c.key}
         # 1. precondition
         for j, r in enumerate(c.requires):
             g = self.spec(r, st, args, st)
@@ -900,6 +923,12 @@ class Executor(ExprMixin, StmtMixin, Engine):
         self.covers.append((key, 'requires', v))
         st.ghost['__entry__'] = dict(st.env)
         st.ghost['__entry_alloc__'] = st.alloc
+        for gname, (gt, gexpr) in c.ghost_init.items():
+            st.env[gname] = self.coerce(self.spec_val(gexpr, st, {}, st), gt)
+            self.local_types = dict(self.local_types)
+            self.local_types[gname] = gt
+        self.ghost_hits = set()
+        self.call_assert_hits = set()
         old = st.fork()
         st.ghost['__entry_heap__'] = dict(old.heap)
         self.fn_old = old
@@ -949,6 +978,14 @@ class Executor(ExprMixin, StmtMixin, Engine):
                            stable_name='%s:post:%d' % (key.split(':')[1], j))
                 self.clause_props = None
             # frame for globals not in modifies: proved at each write; nothing to do here
+        for pat in c.ghost_after:
+            if pat not in self.ghost_hits:
+                self.results.append(ObResult(key.split(':')[1] + ':ghost-anchor', 'resolve', key, 0, 'undecided', 'none', 0,
+                                             'ghost anchor statement not found / not reached: %s' % pat, prop=c.prop))
+        for ck in c.call_asserts:
+            if ck not in self.call_assert_hits:
+                self.results.append(ObResult(key.split(':')[1] + ':call-assert-anchor', 'resolve', key, 0, 'undecided', 'none', 0,
+                                             'asserted call not found / not reached: %s' % ck, prop=c.prop))
         if n_exits == 0:
             self.results.append(ObResult(key.split(':')[1] + ':no-exit-path', 'cover', key, 0, 'undecided',
                                          'none', 0, 'no feasible path reaches an exit', prop=c.prop))
